@@ -454,8 +454,9 @@ static HCase gen_hobby(Rng& g) {
 static HCase gen_hobby_deg(Rng& g) {
     HCase c = gen_hobby(g);
     c.cls = "coincident";
-    uint64_t i = g.below(c.count - 1);
+    uint64_t i = g.chance(30) ? 0 : g.below(c.count - 1);
     c.p[i + 1] = c.p[i];
+    if (g.chance(40) && i + 2 < c.count) c.p[i + 2] = c.p[i];   // a triple point: two zero-length chords in a row
     return c;
 }
 
